@@ -478,6 +478,9 @@ class UnitDatabase(Singleton):
         # check if valid_units should inherit from the quantity_type
         if valid_units is not None:
             # valid units given: check if all the given units are valid
+            # (working on a copy: legacy units are fixed in place below and the list may belong
+            # to the caller or to the category given as from_category)
+            valid_units = list(valid_units)
             quantity_units = set(self.GetUnits(quantity_type))
             for i, unit in enumerate(valid_units):
                 was_unit_fixed, fixed_unit = FixUnitIfIsLegacy(unit)
